@@ -6,4 +6,50 @@ def run(chk):
     genrules.r01_dual(chk, rule="R02-dual", inc_rule="R02-dual-inc")
     genrules.expansion_diffs(chk, "R02-shipped", lambda k: ("[stringify]" in k) or "PositionRestricted" in k or "Display" in k,
                              "generated stringify/pos_restrict/Display items identical (canonical form) to the generator's output")
+    r02_store(chk)
     chk.assumptions += ["not decided: token-sequence equality of output and input as such"]
+
+
+def r02_store(chk):
+    """R02-store: every token-derived item built by the IF_DATA parsers is stored unconditionally (pushed to its list, put into a
+    vec![..] literal or returned), never handed to a closure that may or may not run"""
+    from . import mir
+    from .common import Finding
+    prog = mir.prog()
+    n = 0
+    for fid, b in sorted(prog.bodies.items()):
+        if b.file != "a2lfile/src/ifdata.rs" or b.kind == "Closure":
+            continue
+        for bi, blk in enumerate(b.blocks):
+            if blk["cleanup"]:
+                continue
+            for s in blk["s"]:
+                if s["k"] == "assign" and s["rv"]["r"] == "agg" and s["rv"].get("kind") == "adt" and s["rv"]["adt"] in ("a2ml::GenericIfDataTaggedItem",) and not s["p"]["p"]:
+                    n += 1
+                    loc = s["p"]["l"]
+                    consumers = []
+                    for bj, blk2 in enumerate(b.blocks):
+                        if blk2["cleanup"]:
+                            continue
+                        for s2 in blk2["s"]:
+                            if s2["k"] == "assign":
+                                for op in mir.operands_of_rvalue(s2["rv"]):
+                                    if "m" in op and op["m"]["l"] == loc and not op["m"]["p"]:
+                                        rv = s2["rv"]
+                                        if rv["r"] == "agg":
+                                            consumers.append((rv.get("kind"), rv.get("adt"), rv.get("v"), s2["ln"]))
+                                        else:
+                                            consumers.append(("move", None, None, s2["ln"]))
+                        t = blk2["t"]
+                        if t["k"] == "call":
+                            for a in t["args"]:
+                                if "m" in a and a["m"]["l"] == loc and not a["m"]["p"]:
+                                    consumers.append(("call", mir.strip_generics((t.get("res") or "?").lstrip("?")), None, t["ln"]))
+                    for kind, what, v, ln in consumers:
+                        if kind == "closure":
+                            chk.add(Finding("R02-store", "R02-store::%s::closure" % mir.strip_generics(fid), "%s hands a parsed tagged item to a closure instead of storing it: whether the item is kept depends on whether the closure runs (e.g. entry().or_insert_with), so repeated tags lose their later items" % fid, b.where(ln)))
+                        elif kind == "call" and not (what.endswith("Vec::push") or what.endswith("::push")):
+                            chk.add(Finding("R02-store", "R02-store::%s::%s" % (mir.strip_generics(fid), what), "%s passes a parsed tagged item to %s instead of storing it" % (fid, what), b.where(ln)))
+                    if not consumers:
+                        chk.add(Finding("R02-store", "R02-store::%s::dropped" % mir.strip_generics(fid), "%s builds a tagged item from consumed tokens and never stores it" % fid, b.where(s["ln"])))
+    chk.rule("R02-store", "tagged items built by the IF_DATA parsers that are stored unconditionally", n, floor=3)
